@@ -17,7 +17,7 @@ from verifsim import core, harness, sched, simfs
 
 PROP = "C26"
 ROOT = "/simfs/c26"
-BASES = ["x", "y"]
+BASES = ["x", "y", "x1", "x.1"]      # names that are prefixes of each other stress the file-name matching
 H5NAMES = ["h0", "h1"]
 _PRISTINE = None
 
